@@ -205,7 +205,10 @@ def pool_timeout_scenarios(draw):
     waiters = []
     for i in range(draw(st.integers(1, 4))):
         waiters.append({"p": draw(st.sampled_from([0, 0, 0.5, 1.0, 2.5, 7.0, None])), "host": draw(st.sampled_from(["a.test", "a.test", "b.test"]))})
-    return {"kind": draw(st.sampled_from(["direct-h1", "direct-h1", "direct-tls-h1", "forward", "tunnel-h1", "socks-h1"])), "holders": n_hold, "waiters": waiters,
+    # (direct-h2-fallback-h1: an http2-capable pool against an HTTP/1.1 server - requests that were assigned the connecting connection get
+    # ConnectionNotAvailable once ALPN has chosen HTTP/1.1 and go back to the queue with whatever is left of their pool timeout)
+    return {"kind": draw(st.sampled_from(["direct-h1", "direct-h1", "direct-tls-h1", "forward", "tunnel-h1", "socks-h1", "direct-h2-fallback-h1", "direct-h2-fallback-h1"])),
+            "holders": n_hold, "waiters": waiters,
             "advances": draw(st.lists(st.sampled_from([0.3, 0.7, 1.1, 2.3, 5.0]), max_size=6)),
             "choices": draw(st.lists(st.integers(0, 9), max_size=60)), "runtime": draw(st.sampled_from(["asyncio", "trio"])),
             "late": draw(st.sampled_from([[], [], [1], [0, 1], [0, 0, 1], [1, 0, 0, 0]]))}
@@ -238,7 +241,23 @@ def execute_pool_timeout(sc) -> Outcome:
         await r.pool.aclose()
 
     r = make_run(sc.get("runtime"))(world, pool_cfg, callers, choices=sc["choices"], advances=sc["advances"], epilogue=epilogue, late=sc.get("late", ()))
-    r.run()
+    # harness-side observation: when a request that HAD been given a connection is put back into the queue (ConnectionNotAvailable, e.g. an
+    # http2-capable connection that turned out to speak HTTP/1.1). The time it spent attached to that connection is not time "in the queue
+    # without being given a connection": its PoolTimeout is due at t0 + max(p, moment of the last re-queue).
+    import httpcore._async.connection_pool as _pool_mod
+
+    requeued = {}
+    _orig_clear = _pool_mod.AsyncPoolRequest.clear_connection
+
+    def _clear(self_):
+        requeued[bytes(self_.request.url.target)] = world.clock.now
+        return _orig_clear(self_)
+
+    _pool_mod.AsyncPoolRequest.clear_connection = _clear
+    try:
+        r.run()
+    finally:
+        _pool_mod.AsyncPoolRequest.clear_connection = _orig_clear
     vio = []
     what = ("[trio] " if sc.get("runtime") == "trio" else "") + f"{sc['kind']} max_connections={sc['holders']} waiters={[w['p'] for w in sc['waiters']]}"
     tags = [sc["kind"], "runtime-" + (sc.get("runtime") or "asyncio")]
@@ -259,6 +278,10 @@ def execute_pool_timeout(sc) -> Outcome:
                 vio.append(V(P, "pool-timeout-without-limit", f"{what}: waiter {j} has no pool timeout but raised PoolTimeout", conn=sc["kind"]))
             else:
                 dt = out["t1"] - t0
+                rq = requeued.get(f"/t/w{j}".encode())
+                if rq is not None and rq - t0 > p:
+                    tags.append("requeued-after-deadline")
+                    p = rq - t0  # it held a connection until then; once re-queued with nothing left of its timeout it must fail at once
                 if dt < p - 1e-3:
                     vio.append(V(P, "pool-timeout-early", f"{what}: waiter {j} raised PoolTimeout after {dt:.6f}s of virtual time, its pool timeout is {p}", conn=sc["kind"]))
                 elif dt > p + 1e-3:
@@ -269,6 +292,9 @@ def execute_pool_timeout(sc) -> Outcome:
             vio.append(V(P, "request-failed", f"{what}: waiter {j}: {out['exc']['type']}: {out['exc']['msg']}", conn=sc["kind"]))
         else:
             if issued is not None and p is not None:
+                rq = requeued.get(f"/t/w{j}".encode())
+                if rq is not None and rq - t0 > p:
+                    p = rq - t0  # it was given a connection in time, lost it (ConnectionNotAvailable) and may be served again at that very moment
                 wait = issued - t0
                 if wait > 1e-3:
                     waited = True
